@@ -752,7 +752,9 @@ fn imeta_roundtrip(prop: &str, i: u64, rng: &mut Rng, out: &mut Outcome, dir: &s
             ("application/octet-stream", "application/octet-stream"),
             ("AUDIO/OGG", "audio/ogg"),
         ]);
-        let fname: String = match rng.below(5) {
+        let fname: String = match rng.below(7) {
+            5 => rng.pick(&["report.pdf ", " notes.pdf", "notes.pdf\u{3000}", "\u{a0}x.bin", "two  blanks.dat", "m image/png", "x 00ff.bin"]).to_string(),
+            6 => format!(" lead-and-trail-{} ", rng.next() % 1000),
             0 => "a b c.pdf".into(),
             1 => "\u{1F980}-\u{65e5}\u{672c}.txt".into(),
             2 => format!("{}.bin", "n".repeat(200)),
